@@ -84,16 +84,20 @@ func (nd *KVNode) saddCommand(cmd redcon.Command) (interface{}, error) {
 		return nil, err
 	}
 
-	needChange := false
 	for _, m := range cmd.Args[2:] {
 		if err := common.CheckKeySubKey(key, m); err != nil {
 			return nil, err
+		}
+	}
+	needChange := !nd.isLocalStoreCurrent()
+	for _, m := range cmd.Args[2:] {
+		if needChange {
+			break
 		}
 		n, _ := nd.store.SIsMember(key, m)
 		if n == 0 {
 			// found a new member not exist, we need do raft proposal
 			needChange = true
-			break
 		}
 	}
 	if !needChange {
@@ -114,13 +118,15 @@ func (nd *KVNode) sremCommand(cmd redcon.Command) (interface{}, error) {
 		return nil, err
 	}
 
-	needChange := false
+	needChange := !nd.isLocalStoreCurrent()
 	for _, m := range cmd.Args[2:] {
+		if needChange {
+			break
+		}
 		n, _ := nd.store.SIsMember(key, m)
 		if n != 0 {
 			// found a new member, we need do raft proposal
 			needChange = true
-			break
 		}
 	}
 	if !needChange {
@@ -149,16 +155,18 @@ func (nd *KVNode) spopCommand(cmd redcon.Command) (interface{}, error) {
 	if err != nil {
 		return nil, err
 	}
-	n, err := nd.store.SCard(key)
-	if err != nil {
-		return nil, err
-	}
-	// check if empty set
-	if n == 0 {
-		if !hasCount {
-			return nil, nil
-		} else {
-			return [][]byte{}, nil
+	if nd.isLocalStoreCurrent() {
+		n, err := nd.store.SCard(key)
+		if err != nil {
+			return nil, err
+		}
+		// check if empty set
+		if n == 0 {
+			if !hasCount {
+				return nil, nil
+			} else {
+				return [][]byte{}, nil
+			}
 		}
 	}
 	v, err := rebuildFirstKeyAndPropose(nd, cmd, func(cmd redcon.Command, r interface{}) (interface{}, error) {
